@@ -33,6 +33,7 @@ var importMap = map[string]string{
 	"runtime":                        "runtime " + q(shimRoot+"vruntime"),
 	"math/rand":                      "rand " + q(shimRoot+"vrand"),
 	"sync/atomic":                    "atomic " + q(shimRoot+"vatomic"),
+	"context":                        "context " + q(shimRoot+"vcontext"),
 	"golang.org/x/sync/singleflight": "singleflight " + q(shimRoot+"singleflight"),
 }
 
@@ -646,7 +647,7 @@ func main() {
 		}
 	}
 	// virtual packages
-	for _, pkg := range []string{"vrt", "vsync", "vtime", "vruntime", "vrand", "vatomic"} {
+	for _, pkg := range []string{"vrt", "vsync", "vtime", "vruntime", "vrand", "vatomic", "vcontext"} {
 		files, _ := filepath.Glob(filepath.Join(*verif, "vrt", pkg, "*.go"))
 		for _, f := range files {
 			if strings.HasSuffix(f, "_test.go") {
